@@ -199,6 +199,8 @@ func (ex *Exec) lockAcquired(fr *Frame, ins ssa.Instruction, ls *lockSpec, obj V
 			ex.note("ASSUMED after Lock in " + relName(ex.root) + " (token argument): " + la.Text)
 		}
 	}
+	// the state at the start of the critical section: atlock(e) in later clauses
+	fr.lockSnap = ex.st.snapshot()
 }
 
 func (ex *Exec) lockReleased(fr *Frame, ins ssa.Instruction, ls *lockSpec, obj Val) {
